@@ -14,7 +14,9 @@ Frag == {S("con"), S("CON"), S("Con"), S("nul"), S("NUL"), S("com1"), S("COM1"),
 Words == Frag \cup {f \o <<sep>> \o g : f \in Frag, g \in Frag, sep \in {cDot, cSlash, C("-")}}
 \* the escape character followed by every ASCII character (and one beyond): only a lower-case letter may follow it
 Bangs == {S("a!") \o <<c>> \o S("b") : c \in (1..127) \cup {233}} \cup {S("v1.0.0-x!") \o <<c>> : c \in (1..127) \cup {233}}
-Vocab == Words \cup {Esc(w) : w \in Words} \cup Bangs
+\* gopkg.in paths (their suffix rule is part of path validity)
+Gopkg == {S("gopkg.in/yaml.v2"), S("gopkg.in/yaml.v2-unstable"), S("gopkg.in/yaml.v"), S("gopkg.in/Shopify/sarama.v-unstable"), S("gopkg.in/Yaml.v02-unstable"), S("gopkg.in/yaml-unstable")}
+Vocab == Words \cup {Esc(w) : w \in Words} \cup Bangs \cup Gopkg \cup {Esc(w) : w \in Gopkg}
 Init == s = <<>>
 Next == \/ Len(s) < MaxLen /\ \E c \in Alphabet : s' = Append(s, c)
         \/ s = <<>> /\ s' \in Vocab
